@@ -281,12 +281,15 @@ def _match_template_vars(
     for k in t_vars:
         if k in ignore:
             continue
-        if k not in n_vars:
+        if k not in n_vars and not (t_vars[k] is None or t_vars[k] == []):
+            # A node built by hand may omit an optional child or an empty list; it is then the
+            # node without that child, and anything else in the template is a difference.
             return ()
 
     matches = (
         match_template(n_vars[key], t_vars[key], ignore=ignore)
         for key in t_vars.keys() - ignore
+        if key in n_vars
     )
     return merge_matches(node, matches)
 
@@ -1367,7 +1370,7 @@ class _NameWildcardTransformer(ast.NodeTransformer):
         new_decorators = [self.visit(child) for child in node.decorator_list]
         new_body = [self.visit(child) for child in node.body]
         kwargs = {}
-        if getattr(node, "type_params", None):  # class A[T]: ..., python 3.12+
+        if hasattr(node, "type_params"):  # class A[T]: ..., python 3.12+; an empty list says "not generic"
             kwargs["type_params"] = [self.visit(child) for child in node.type_params]
         new_node = ast.ClassDef(
             name=new_name,
@@ -1386,7 +1389,7 @@ class _NameWildcardTransformer(ast.NodeTransformer):
         new_decorator_list = [self.visit(child) for child in node.decorator_list]
         new_returns = self.visit(node.returns)
         kwargs = {}
-        if getattr(node, "type_params", None):  # def f[T](x): ..., python 3.12+
+        if hasattr(node, "type_params"):  # def f[T](x): ..., python 3.12+; an empty list says "not generic"
             kwargs["type_params"] = [self.visit(child) for child in node.type_params]
         new_node = ast.FunctionDef(
             name=new_name,
@@ -1405,7 +1408,7 @@ class _NameWildcardTransformer(ast.NodeTransformer):
         new_decorator_list = [self.visit(child) for child in node.decorator_list]
         new_returns = self.visit(node.returns)
         kwargs = {}
-        if getattr(node, "type_params", None):  # def f[T](x): ..., python 3.12+
+        if hasattr(node, "type_params"):  # def f[T](x): ..., python 3.12+; an empty list says "not generic"
             kwargs["type_params"] = [self.visit(child) for child in node.type_params]
         new_node = ast.AsyncFunctionDef(
             name=new_name,
